@@ -1,6 +1,7 @@
 package main
 
 import (
+	"encoding/hex"
 	"fmt"
 	"math/big"
 	"net/netip"
@@ -36,6 +37,10 @@ type RouteSpec struct {
 	FromUsers    []string   `json:"fromUsers,omitempty"`
 	FromPorts    []int      `json:"fromPorts,omitempty"`
 	FromRanges   []PortItem `json:"fromPortRanges,omitempty"`
+	// FromRangesRaw / ToRangesRaw: the port-range string as written (overrides the item list): arbitrary text,
+	// including malformed pieces.
+	FromRangesRaw *string `json:"fromPortRangesRaw,omitempty"`
+	ToRangesRaw   *string `json:"toPortRangesRaw,omitempty"`
 	FromPrefixes []string   `json:"fromPrefixes,omitempty"`
 	FromPfxSets  []string   `json:"fromPrefixSets,omitempty"`
 	FromGeo      []string   `json:"fromGeoIPCountries,omitempty"`
@@ -65,6 +70,75 @@ type RouteSpec struct {
 	InvToPorts     bool `json:"invertToPorts,omitempty"`
 }
 
+// fromRangeString / toRangeString: the string that goes into RouteConfig.FromPortRanges / ToPortRanges.
+func (r RouteSpec) fromRangeString() string {
+	if r.FromRangesRaw != nil {
+		return *r.FromRangesRaw
+	}
+	return mapStr(r.FromRanges, PortItem.String)
+}
+
+func (r RouteSpec) toRangeString() string {
+	if r.ToRangesRaw != nil {
+		return *r.ToRangesRaw
+	}
+	return mapStr(r.ToRanges, PortItem.String)
+}
+
+// readRanges: the oracle's own reading of a port-range string, from the documentation ("comma-separated list of
+// ports and port ranges": a port is a decimal number 1..65535, a range is lo-hi with lo < hi). ok = every piece is
+// well-formed. A single trailing comma is a don't-care (dontCare = true): the documentation does not say.
+func readRanges(s string) (items []PortItem, ok bool, dontCare bool) {
+	if s == "" {
+		return nil, true, false
+	}
+	if strings.HasSuffix(s, ",") {
+		dontCare = true
+		s = strings.TrimSuffix(s, ",")
+		if s == "" {
+			return nil, false, true
+		}
+	}
+	num := func(t string) (int, bool) {
+		if t == "" || len(t) > 40 {
+			return 0, false
+		}
+		n := 0
+		for _, ch := range []byte(t) {
+			if ch < '0' || ch > '9' {
+				return 0, false
+			}
+			n = n*10 + int(ch-'0')
+			if n > 65535 {
+				return 0, false
+			}
+		}
+		return n, n >= 1
+	}
+	ok = true
+	for _, piece := range strings.Split(s, ",") {
+		if i := strings.IndexByte(piece, '-'); i >= 0 {
+			lo, ok1 := num(piece[:i])
+			hi, ok2 := num(piece[i+1:])
+			if !ok1 || !ok2 || lo >= hi {
+				return nil, false, dontCare
+			}
+			items = append(items, PortItem{From: lo, To: hi, IsRange: true})
+		} else {
+			p, ok1 := num(piece)
+			if !ok1 {
+				return nil, false, dontCare
+			}
+			items = append(items, PortItem{From: p})
+		}
+	}
+	return items, ok, dontCare
+}
+
+// fromItems / toItems: what the range string denotes according to readRanges (nil when malformed).
+func (r RouteSpec) fromItems() []PortItem { it, _, _ := readRanges(r.fromRangeString()); return it }
+func (r RouteSpec) toItems() []PortItem   { it, _, _ := readRanges(r.toRangeString()); return it }
+
 // ReqSpec is one request (RequestInfo + protocol).
 type ReqSpec struct {
 	Net     string `json:"net"` // tcp | udp
@@ -83,6 +157,8 @@ type Case struct {
 	UDPClients []string `json:"udpClients"`
 	Servers    []string `json:"servers"`
 	Resolvers  []string `json:"resolvers"`
+	// ResolverMap: the keys of resolverMap; nil = the same names as Resolvers (what service.Config.Manager passes).
+	ResolverMap []string `json:"resolverMap,omitempty"`
 	// Resolve[resolver][domain] = "a<ip>" | "l" (dns.ErrLookup) | "f:noaddr" (dns.ErrDomainNoAssociatedIPs) |
 	// "f:other" | "f:wrapped" (an error wrapping dns.ErrLookup). Missing entries mean "l".
 	Resolve  map[string]map[string]string `json:"resolve"`
@@ -97,6 +173,13 @@ type Case struct {
 	DefUDP   string                       `json:"defaultUDPClientName,omitempty"`
 	Routes   []RouteSpec                  `json:"routes"`
 	Requests []ReqSpec                    `json:"requests"`
+}
+
+func (c *Case) resolverMapNames() []string {
+	if c.ResolverMap == nil {
+		return c.Resolvers
+	}
+	return c.ResolverMap
 }
 
 func (c *Case) domSetRules(name string) []domRule {
@@ -198,12 +281,12 @@ func (r RouteSpec) line() string {
 	kvTok(&sb, "fs", strings.Join(r.FromServers, ","))
 	kvTok(&sb, "fu", strings.Join(r.FromUsers, ","))
 	kvTok(&sb, "fp", mapStr(r.FromPorts, strconv.Itoa))
-	kvTok(&sb, "fpr", mapStr(r.FromRanges, PortItem.String))
+	kvTok(&sb, "fpr", hex.EncodeToString([]byte(r.fromRangeString())))
 	kvTok(&sb, "fx", mapStr(r.FromPrefixes, pfxTok))
 	kvTok(&sb, "fxs", strings.Join(r.FromPfxSets, ","))
 	kvTok(&sb, "fg", strings.Join(r.FromGeo, ","))
 	kvTok(&sb, "tp", mapStr(r.ToPorts, strconv.Itoa))
-	kvTok(&sb, "tpr", mapStr(r.ToRanges, PortItem.String))
+	kvTok(&sb, "tpr", hex.EncodeToString([]byte(r.toRangeString())))
 	kvTok(&sb, "td", strings.Join(r.ToDomains, ","))
 	kvTok(&sb, "tds", strings.Join(r.ToDomSets, ","))
 	kvTok(&sb, "ex", mapStr(r.ExpPfx, pfxTok))
@@ -221,7 +304,7 @@ func (q ReqSpec) line() string {
 	sb.WriteString("req")
 	kvTok(&sb, "net", q.Net)
 	kvTok(&sb, "srv", strconv.Itoa(q.Server))
-	kvTok(&sb, "user", q.User)
+	kvTok(&sb, "userx", hex.EncodeToString([]byte(q.User)))
 	kvTok(&sb, "src", ipTok(netip.MustParseAddr(q.Src)))
 	kvTok(&sb, "sport", strconv.Itoa(q.SrcPort))
 	if q.DstDom != "" {
@@ -239,6 +322,7 @@ func (c Case) lines() (ls []string, buildIdx int, reqIdx int) {
 	var sb strings.Builder
 	sb.WriteString("env geoip=0")
 	kvTok(&sb, "resolvers", strings.Join(c.Resolvers, ","))
+	kvTok(&sb, "rmap", strings.Join(c.resolverMapNames(), ","))
 	kvTok(&sb, "tcp", strings.Join(c.TCPClients, ","))
 	kvTok(&sb, "udp", strings.Join(c.UDPClients, ","))
 	kvTok(&sb, "servers", strings.Join(c.Servers, ","))
